@@ -8,26 +8,50 @@ Import DV.Prelude.Base DV.Model.Node DV.Proofs.NodeB.
 Import Coq.Strings.String.
 
 (* C08: an application request on an existing connection produces exactly what the routing
-   function says: one delivery to the chosen application, or one answer with the specified result code *)
+   function says: one delivery to the chosen application (followed by the 5012 answer when the
+   application's handler raises), or one answer with the specified result code *)
 Theorem C08_route_refines n cid c m k :
   get_conn n cid = Some c -> m_req m = true -> m_cmd m = App k ->
   snd (receive_message n cid m) = route_outputs cid m (spec_route n c m).
 Proof. exact (@NodeB.C08_route_refines n cid c m k). Qed.
 
-(* C08: when the routing function delivers to application i, the delivery is the whole output: no
-   other application gets the request and the node queues nothing; and i is an application with the
-   request's application id, routed in the request's realm (through the sending peer if it is configured) *)
+(* C08: when the routing function delivers to application i, the request is handed to i exactly once and
+   to no other application; the node queues nothing, unless the application's handler raises: then
+   exactly the 5012 answer to the request, on its connection, after the delivery; and i is an
+   application with the request's application id, routed in the request's realm (through the sending peer
+   if it is configured) *)
 Theorem C08_exactly_once n cid c m k i :
   get_conn n cid = Some c -> m_req m = true -> m_cmd m = App k ->
   spec_route n c m = Deliver i ->
-  snd (receive_message n cid m) = [ODeliver i m]
+  snd (receive_message n cid m) = deliver_outputs cid m i
+  /\ List.filter is_deliver (snd (receive_message n cid m)) = [ODeliver i m]
   /\ (forall j m', List.In (ODeliver j m') (snd (receive_message n cid m)) -> j = i /\ m' = m)
-  /\ (forall cid' a, ~ List.In (OQueue cid' a) (snd (receive_message n cid m)))
+  /\ (forall cid' a, List.In (OQueue cid' a) (snd (receive_message n cid m)) ->
+        handler_raises m = true /\ cid' = cid /\ a = answer_of m (Some 5012) [])
+  /\ (handler_raises m = false -> snd (receive_message n cid m) = [ODeliver i m])
   /\ exists realm entries names a,
        m_drealm m = Present realm /\ List.In (realm, entries) (n_routes n) /\
        List.In (RApp i, names) entries /\ List.nth_error (n_apps n) i = Some a /\ a_id a = m_app m /\
        match find_conn_peer n c with Some p => List.In (p_name p) names | None => True end.
 Proof. exact (@NodeB.C08_exactly_once n cid c m k i). Qed.
+
+(* C08: when the routing function delivers to application i and the application's handler raises, the
+   node hands the request to i and then answers it UNABLE_TO_COMPLY (5012) on its connection: exactly
+   these two outputs, in this order *)
+Theorem C08_handler_failure_answered n cid c m k i :
+  get_conn n cid = Some c -> m_req m = true -> m_cmd m = App k ->
+  spec_route n c m = Deliver i -> handler_raises m = true ->
+  snd (receive_message n cid m) = [ODeliver i m; OQueue cid (answer_of m (Some RC_UNABLE) [])].
+Proof. exact (@NodeB.C08_handler_failure_answered n cid c m k i). Qed.
+
+(* C08: the same through the gate: on a ready connection, a request routed to application i whose
+   handler raises makes dispatch output exactly the delivery followed by the 5012 answer *)
+Theorem C08_handler_failure_answered_dispatch n cid c m k i :
+  get_conn n cid = Some c -> is_ready_state (c_state c) = true ->
+  m_req m = true -> m_cmd m = App k ->
+  spec_route n c m = Deliver i -> handler_raises m = true ->
+  snd (dispatch n cid m) = [ODeliver i m; OQueue cid (answer_of m (Some RC_UNABLE) [])].
+Proof. exact (@NodeB.C08_handler_failure_answered_dispatch n cid c m k i). Qed.
 
 (* C08: base protocol messages (capabilities exchange, watchdog, disconnect) never reach an application *)
 Theorem C08_base_never_delivered n cid m :
@@ -44,5 +68,7 @@ End FromNodeB.
 
 Print Assumptions FromNodeB.C08_route_refines.
 Print Assumptions FromNodeB.C08_exactly_once.
+Print Assumptions FromNodeB.C08_handler_failure_answered.
+Print Assumptions FromNodeB.C08_handler_failure_answered_dispatch.
 Print Assumptions FromNodeB.C08_base_never_delivered.
 Print Assumptions FromNodeB.C08_gate_then_route.
